@@ -202,14 +202,20 @@ def shard(path, nshards, boundary=None, header=None, max_events=None):
     if max_events:
         lines = lines[:max_events]
     head = []
+
+    def is_ev(l, kind):
+        return ('"ev":"%s"' % kind) in l[:4000] and json.loads(l).get("ev") == kind
+
     if header:
-        head = [l for l in lines if l.startswith('{"ev":"%s"' % header)]
-        lines = [l for l in lines if not l.startswith('{"ev":"%s"' % header)]
+        head = [l for l in lines if is_ev(l, header)]
+        lines = [l for l in lines if not is_ev(l, header)]
+        if not head:
+            tool_error("trace %s lacks its %s header event" % (path, header))
     groups = []
     if boundary:
         cur = []
         for l in lines:
-            if l.startswith('{"ev":"%s"' % boundary) and cur:
+            if is_ev(l, boundary) and cur:
                 groups.append(cur)
                 cur = []
             cur.append(l)
